@@ -198,11 +198,12 @@ TRANSFORMS = {
 }
 
 
-def build(name):
+def build(name, src=None):
+    src = src or SRC
     trees = {}
-    for f in sorted(os.listdir(SRC)):
+    for f in sorted(os.listdir(src)):
         if f.endswith(".py"):
-            trees[f] = ast.parse(open(os.path.join(SRC, f)).read())
+            trees[f] = ast.parse(open(os.path.join(src, f)).read())
     if name == "all-combined":
         for t in ("rename-locals", "flip-comparisons", "swap-if-arms", "rename-private", "change-messages", "augassign-expand",
                   "insert-noops", "reorder-independent"):
